@@ -541,6 +541,20 @@ class Router:
         except (PacketTooLongException, SendingException):
             pass
 
+    def _cbf_discard(self, cbf_key: tuple) -> bool:
+        """
+        §F.3: a duplicate of a GN-PDU that is waiting in the CBF buffer was overheard
+        (another forwarder was faster): stop its timer and drop the buffered copy.
+
+        Returns True if a buffered copy was discarded.
+        """
+        with self._cbf_lock:
+            old_timer = self._cbf_buffer.pop(cbf_key, None)
+        if old_timer is None:
+            return False
+        old_timer.cancel()
+        return True
+
     def gn_area_cbf_forwarding(
         self,
         basic_header: BasicHeader,
@@ -1698,6 +1712,11 @@ class Router:
             print("Incongruent Timestamp Detected!")
         except DuplicatedPacketException:
             print("Packet is duplicated")
+            # §F.3: the SN-based DPD above runs before the CBF buffer is consulted, so the
+            # overheard duplicate has to discard the contending buffered copy here.
+            if self.mib.itsGnAreaForwardingAlgorithm == AreaForwardingAlgorithm.CBF:
+                self._cbf_discard(
+                    (gbc_extended_header.so_pv.gn_addr, gbc_extended_header.sn))
         except DecodeError as e:
             print(str(e))
         return None
